@@ -74,7 +74,8 @@ def make_scenario(case):
     }
     if case.get("git"):
         # two commits c1 <- c2 (HEAD)
-        scn["git"] = {"commits": {"c1" * 20: [], "c2" * 20: ["c1" * 20]}, "head": "c2" * 20, "is_repo": True}
+        scn["git"] = {"commits": {"c1" * 20: [], "c2" * 20: ["c1" * 20]}, "head": "c2" * 20, "is_repo": True,
+                      "dirty": bool(case.get("dirty"))}
     return scn
 
 
@@ -442,8 +443,10 @@ def terminal_signature(s):
     return [x[1:] for x in seqs] + [("exit", s.exit, type(s.exc).__name__ if s.exc else None)]
 
 
-def explore_case(case, bound, monitors, max_exec=None):
-    """monitors: list of callables (summary, obs) -> [(key, what)].  Returns a run_item result dict."""
+def explore_case(case, bound, monitors, max_exec=None, conform=False):
+    """monitors: list of callables (summary, obs) -> [(key, what)].  Returns a run_item result dict.
+    conform=True: every deviation-0 execution is additionally replayed against a real `cond run` process on the real
+    kernel (vfw.conformance); any disagreement is a harness error (the model misrepresents the implementation)."""
     from . import explore
     scn = make_scenario(case)
     csig = explore.sig(case)
@@ -470,6 +473,13 @@ def explore_case(case, bound, monitors, max_exec=None):
                                           "artefact": {"scenario": scn, "choices": list(obs.choices),
                                                        "observed": what,
                                                        "log": [list(map(str, e)) for e in obs.vk.log][-60:]}})
+        if conform and obs.cost == 0:
+            from . import conformance
+            mism = conformance.replay_trace_on_real_kernel(scn, obs)
+            if mism:
+                raise RuntimeError("virtual kernel trace does not conform to the real kernel/implementation for case %r choices %r:\n%s"
+                                   % (case, obs.choices, "\n".join(mism)))
+            out["traces_validated"] = out.get("traces_validated", 0) + 1
         if out["sample"] is None:
             out["sample"] = {"argv": scn["argv"], "files": scn["files"], "fails": case.get("fails"),
                              "choices": list(obs.choices), "trace": [list(map(str, t)) for t in tsig][:40]}
@@ -547,3 +557,20 @@ def graphs_upto(ns, orders=True, shared_only_from=None):
                     yield [list(d) for d in g]
             else:
                 yield [list(d) for d in shape]
+
+
+def conformance_cases(tier, kindsets=None, with_fail=True):
+    """A fixed family of cases whose deviation-0 traces are replayed on the real kernel."""
+    out = []
+    for g in graphs_upto((1, 2, 3)):
+        n = len(g)
+        for kinds in (kindsets or (["cmd"] * n, ["exp"] * n)):
+            kinds = list(kinds)[:n] if len(kinds) >= n else (list(kinds) * n)[:n]
+            for jobs in ((1, 2) if n < 3 else (2, 3)):
+                pars = [k in ("cmd", "exp") and jobs > 1 for k in kinds]
+                out.append({"g": g, "kinds": kinds, "pars": pars, "jobs": jobs, "fails": {}})
+                if with_fail and n >= 2:
+                    out.append({"g": g, "kinds": kinds, "pars": pars, "jobs": jobs, "fails": {str(n - 1): ["exit", 3]}})
+                    if kinds[1] in ("cmd", "exp"):
+                        out.append({"g": g, "kinds": kinds, "pars": pars, "jobs": jobs, "fails": {"1": ["signal", 9]}})
+    return out
